@@ -9,6 +9,7 @@ class CallGraph:
         self.ext = {}        # caller id -> set(external callee path)
         self.sites = {}      # caller id -> list of (bb, term, callee_id_or_path, is_local)
         self.unresolved = {}  # caller id -> list of (bb, term) trait calls on generic params
+        self.poly = {}        # generic fn id -> {(trait, method, type parameter)}: dispatch decided by the instantiation
         for fid, fn in fx.fns.items():
             body = body_of(fn)
             e = set()
@@ -48,6 +49,14 @@ class CallGraph:
                     else:
                         decl = c.get("path")
                         if c.get("resolved") is None and c.get("trait") and decl:
+                            gens = _generics_of(fx, fid)
+                            targs = c.get("targs") or []
+                            if gens is not None and targs and targs[0] in gens:
+                                # trait method on a type parameter of the enclosing function: the target depends on the
+                                # instantiation, so it is resolved at every call site of this function (second pass)
+                                self.poly.setdefault(_owner(fid), set()).add((c["trait"], decl.split("::")[-1], targs[0]))
+                                sites.append((b, t, decl, False))
+                                continue
                             # trait method on a generic parameter: every local impl is a possible target
                             cands = _impls_of_trait_method(fx, c["trait"], decl.split("::")[-1])
                             for cand in cands:
@@ -66,6 +75,53 @@ class CallGraph:
             self.ext[fid] = x
             self.sites[fid] = sites
             self.unresolved[fid] = unres
+        # second pass: resolve parameter-dispatched trait calls at the call sites of the generic function (to a fixpoint:
+        # a caller that forwards its own type parameter becomes polymorphic itself)
+        changed = True
+        rounds = 0
+        while changed and rounds < 8:
+            changed = False
+            rounds += 1
+            for caller, sites in self.sites.items():
+                cgens = _generics_of(fx, caller) or []
+                for b, t, callee, is_local in sites:
+                    if not is_local or callee not in self.poly:
+                        continue
+                    ggens = _generics_of(fx, callee) or []
+                    targs = [a for a in (t["callee"].get("targs") or [])]
+                    if len(targs) != len(ggens):
+                        # cannot match type arguments to parameters: every impl is a possible target
+                        for tr, m, _p in self.poly[callee]:
+                            for cand in _impls_of_trait_method(fx, tr, m):
+                                if cand not in self.edges[caller]:
+                                    self.edges[caller].add(cand)
+                                    changed = True
+                        continue
+                    mp = dict(zip(ggens, targs))
+                    for tr, m, pname in sorted(self.poly[callee]):
+                        ty = mp.get(pname)
+                        if ty is None:
+                            continue
+                        if ty in cgens:
+                            ent = (tr, m, ty)
+                            if ent not in self.poly.setdefault(_owner(caller), set()):
+                                self.poly[_owner(caller)].add(ent)
+                                changed = True
+                            continue
+                        base = ty.lstrip("&").replace("mut ", "").strip()
+                        for cand in _impls_of_trait_method(fx, tr, m):
+                            st_ = (fx.fns[cand].get("impl") or {}).get("self_ty") or ""
+                            if st_ == base or st_.split("<")[0] == base.split("<")[0]:
+                                if cand not in self.edges[caller]:
+                                    self.edges[caller].add(cand)
+                                    changed = True
+        # a polymorphic function that is never called with concrete types from local code (a public generic API): all impls
+        called = {callee for sites in self.sites.values() for _b, _t, callee, loc in sites if loc}
+        for g, ents in self.poly.items():
+            if g not in called and g in self.edges:
+                for tr, m, _p in ents:
+                    for cand in _impls_of_trait_method(fx, tr, m):
+                        self.edges[g].add(cand)
         self.callers = {}
         for a, bs in self.edges.items():
             for b in bs:
@@ -174,6 +230,16 @@ def _rv_operands(rv):
     if k == "agg":
         return rv["ops"]
     return []
+
+
+def _owner(fid):
+    """closures dispatch on their parent function's type parameters"""
+    return fid.split("::{closure")[0]
+
+
+def _generics_of(fx, fid):
+    f = fx.fns.get(_owner(fid))
+    return f.get("generics") if f else None
 
 
 _impl_cache = {}
